@@ -103,10 +103,12 @@ CLAIMED = {
              "loaded by the real loader, and streams delivered through all three source kinds; the proved model is the oracle.",
         design="§7 C01", technique="Lean 4 proof (composition of the component theorems) + correspondence check"),
     "C11": dict(
-        text="pointwise (with combining off, the event stream is the concatenation of what each packet yields on its own, up to "
+        text="PARTIAL (streams up to the first packet whose decoding raises: the library ends the generator there, which the "
+             "model mirrors and known_findings.json records as C11-generator-ended-by-decoding-error; the `genraise` requests "
+             "replay it on every run). pointwise (with combining off, the event stream is the concatenation of what each packet yields on its own, up to "
              "the first raising packet), concat (streams compose), error_in_place, interleave (for any schedule of next() calls "
              "over any number of generators, each generator's remaining items are its solo items minus the number of times it "
-             "was advanced). Aliasing and mutation of the shared definition are Python object-model matters: the harness "
+             "was advanced; generators may name their own root container). Aliasing and mutation of the shared definition are Python object-model matters: the harness "
              "advances 2..4 real generators over one definition object in PRNG-chosen interleavings and compares a structural "
              "snapshot of the definition before and after.",
         design="§7 C11", technique="Lean 4 proof (list induction) + correspondence check on real generator objects"),
